@@ -1595,6 +1595,15 @@ func (sc *serverConn) handleHeaderFrame(strm *Stream, fr *FrameHeader) error {
 				continue
 			}
 
+			// A second content-length, in the header block or in the trailers,
+			// used to replace the first: a request that declared 3 octets, sent 5
+			// and said 5 in its trailers was dispatched.
+			if strm.hasContentLength && strm.contentLength != n {
+				strm.rejected = NewResetStreamError(ProtocolError, "content-length fields disagree")
+
+				continue
+			}
+
 			strm.contentLength = n
 			strm.hasContentLength = true
 
